@@ -54,6 +54,8 @@ theorem read_ok (r : DR) (inp : Bytes) (k : Nat) (o rest0 : Bytes)
           (read r inp k).2.1.length = (if r.limited then min k r.n else k)) ∨
        ((read r inp k).2.2.2 = .eof ∧ o' = [] ∧ (read r inp k).2.2.1 = rest0)) := by
   unfold read
+  have hne : (r.state != St.eof) = true := by rcases hB with h | h | h <;> simp [h]
+  simp only [hne, Bool.and_true]
   by_cases h0 : (r.limited && r.n == 0) = true
   · -- budget used up: the whole output has been delivered, so the marker is next
     simp only [h0, if_true]
